@@ -137,3 +137,54 @@ extract_coord = Contract(
     returns=ty.TOpt(ty.Int), properties=("C09", "C11"), min_obligations=4, no_replay=True,
 )
 CONTRACTS += [extract_coord, get_operation, rec_call]
+
+# =================================================================================================
+# LayoutPlanner._trim_power_poles: only poles the compiler added itself (is_power_pole) may be removed — a
+# user-placed entity, a user-placed pole of the grid's own prototype included, always stays; a grid pole goes
+# exactly when no non-pole entity lies within the supply square.  (Plan of 3 placements: bounded size.)
+# =================================================================================================
+LP = "dsl_compiler/src/layout/planner.py::LayoutPlanner."
+_POS = ty.TTuple((ty.Int, ty.Int))
+
+
+def _plc(is_pole, proto):
+    props = (("is_power_pole", ty.TConcrete(True)),) if is_pole else ()
+    return ty.TObj("EntityPlacement", only=("EntityPlacement",), ftypes=(("position", _POS), ("entity_type", ty.TConcrete(proto)),
+                                                                          ("properties", ty.TRecord(props))))
+
+
+def _trim_post(radius):
+    def post(a, res):
+        plan = a.self.layout_plan
+        d = plan.entity_placements
+        old = CAPT["before"]
+        cs = ["user_pole" in d, "lamp" in d]
+        g, lamp, up = old["grid_pole"], old["lamp"], old["user_pole"]
+        def near(p, q):
+            return And(ops.absv(p.position[0] - q.position[0]) <= radius, ops.absv(p.position[1] - q.position[1]) <= radius)
+        covers = Or(near(lamp, g), near(up, g))
+        cs.append(covers if "grid_pole" in d else Not(covers))
+        return And(*cs)
+    return post
+
+
+CAPT = {}
+
+
+def _remember(a):
+    CAPT["before"] = dict(a.self.layout_plan.entity_placements)
+    return True
+
+
+for _pt, _proto, _rad in (("small", "small-electric-pole", 2.5), ("medium", "medium-electric-pole", 3.5), ("big", "big-electric-pole", 5), ("substation", "substation", 9)):
+    CONTRACTS.append(Contract(
+        qualname=LP + "_trim_power_poles",
+        params={"self": ty.TObj("LayoutPlanner", only=("LayoutPlanner",))},
+        requires=[("(remember the plan)", _remember)],
+        ensures=[("user-placed entities (poles of the grid's prototype included) stay; a grid pole stays iff it covers a non-pole entity", _trim_post(_rad))],
+        uses={"opaque.info": "skip"},
+        dynamic_types={"self": {"power_pole_type": ty.TConcrete(_pt), "layout_plan": ty.TObj("LayoutPlan", only=("LayoutPlan",)), "diagnostics": ty.TOpaque("diag")},
+                       "self.layout_plan": {"entity_placements": ty.TRecord((("lamp", _plc(False, "small-lamp")), ("user_pole", _plc(False, _proto)),
+                                                                              ("grid_pole", _plc(True, _proto)))),
+                                            "power_poles": ty.TConcrete([])}},
+        properties=("C09", "C18"), min_obligations=1, no_replay=True, note=f"--power-poles {_pt}; plan of 3 placements"))
